@@ -148,8 +148,33 @@ func GenFullProgram(t *rapid.T, o FullOpts) (*Program, []Global, []*Node) {
 	prog.Commands = append(prog.Commands, cmd)
 	maxc := o.MaxCmds
 	if maxc > 1 && rapid.IntRange(0, 3).Draw(t, "morecmds") == 0 {
-		g2 := &gctx{t: t, f: Features{NoNot: false}, allowDef: true, loopProd: 1}
-		prog.Commands = append(prog.Commands, Command{Amount: genAmount(t), Body: []*Node{g2.node(1)}})
+		// further commands: a fresh small one, the same body again (every command has
+		// its own name scope, so the same captures, subroutines and loop names are
+		// fine) as a find or a replace, or the declared definitions once more
+		for n := rapid.IntRange(1, 2).Draw(t, "nmore"); n > 0; n-- {
+			var c Command
+			switch rapid.IntRange(0, 3).Draw(t, "morekind") {
+			case 0:
+				g2 := &gctx{t: t, f: Features{NoNot: false}, allowDef: true, loopProd: 1}
+				c = Command{Amount: genAmount(t), Body: []*Node{g2.node(1)}}
+			case 1, 2:
+				c = Command{Amount: genAmount(t), Body: body}
+			default:
+				var b2 []*Node
+				for _, g := range globals {
+					if rapid.Bool().Draw(t, "useglobal") {
+						b2 = append(b2, &Node{K: KGlobal, S: g.Name})
+					}
+				}
+				b2 = append(b2, &Node{K: KLit, S: rapid.SampledFrom([]string{"a", "b", " "}).Draw(t, "morelit")})
+				c = Command{Amount: genAmount(t), Body: b2}
+			}
+			if rapid.Bool().Draw(t, "morereplace") {
+				c.Replace = true
+				c.With = []WithItem{{Kind: 0, S: "<"}, {Kind: 1, S: "value"}, {Kind: 0, S: ">"}}
+			}
+			prog.Commands = append(prog.Commands, c)
+		}
 	}
 	return prog, globals, body
 }
